@@ -106,3 +106,24 @@ M("C04-R6-zip-ear", "C04", [(CFG, 'vec_of_strings![".zip", ".jar", ".war", ".ear
 M("C04-R7-cap-bpf-bit", "C04", [(CAPS, "check_cap!(cap_bpf, 39 - 32, permitted, inherited, effective, result);", "check_cap!(cap_bpf, 38 - 32, permitted, inherited, effective, result);")], ["capability_cap_bpf"])
 M("C04-R7-cap-word", "C04", [(CAPS, "let permitted = u32::from_le_bytes(caps[12..16].try_into().unwrap());", "let permitted = u32::from_le_bytes(caps[4..8].try_into().unwrap());")], ["capability_cap_mac"])
 M("C04-V-perm-nonzero", "C04", [(MO, "mode & S_IRUSR == S_IRUSR", "mode & S_IRUSR != 0")], kind="variant")
+
+# ---------------------------------------------------------------- C05 / C06
+T = "src/util/top_n.rs"
+M("C05-R1-direction-swapped", "C05", [(U, "if self.orderings[i] {\n            comparison\n        } else {\n            comparison.reverse()\n        }", "if self.orderings[i] {\n            comparison.reverse()\n        } else {\n            comparison\n        }")], ["cmp_at_direction"])
+M("C05-R1-numbers-operands", "C05", [(U, "        a.cmp(&b)\n    }\n\n    #[inline]\n    fn cmp_at_datetimes", "        b.cmp(&a)\n    }\n\n    #[inline]\n    fn cmp_at_datetimes")], ["cmp_at_numbers"])
+M("C05-R1-dispatch", "C05", [(U, "if field.contains_numeric() {\n            comparison = self.cmp_at_numbers(other, i);", "if field.contains_numeric() {\n            comparison = self.cmp_at_direct(other, i);")], ["cmp_at_dispatch"])
+M("C05-R1-cmp-skips-first", "C05", [(U, "for i in 0..(self.values.len().min(other.values.len())) {", "for i in 1..(self.values.len().min(other.values.len())) {")], ["cmp_lexicographic"])
+M("C05-R2-uid-not-numeric", "C05", [("src/field.rs", "            | Field::Uid | Field::Gid\n", "            | Field::Gid\n")], ["key-typing_Uid"])
+M("C05-R2-length-not-numeric", "C05", [(F, "            Function::Length\n                | Function::Random", "            Function::Random")], ["key-typing_function_Length"])
+M("C05-R3-positional-off", "C05", [(P, "Ok(idx) => fields[idx - 1].clone(),", "Ok(idx) => fields[idx].clone(),")], ["positional"])
+M("C05-R3-default-desc", "C05", [(P, "order_by_directions.push(true);", "order_by_directions.push(false);")], ["pairing"])
+M("C05-R3-desc-first", "C05", [(P, "order_by_directions[cnt - 1] = false;", "order_by_directions[0] = false;")], ["parse_order_by_desc"])
+M("C05-R4-values-reversed", "C05", [(T, "self.echelons\n            .values()\n            .flat_map", "self.echelons\n            .values()\n            .rev()\n            .flat_map")], ["values-order"])
+M("C06-R1-evict-ge", "C06", [(T, "if limit < self.count {", "if limit <= self.count {")], ["eviction-test"])
+M("C06-R1-victim-first", "C06", [(T, "self.echelons.iter().next_back().unwrap()", "self.echelons.iter().next().unwrap()")], ["victim-side"])
+M("C06-R1-no-decrement", "C06", [(T, "                self.count -= 1;\n", "")], ["bookkeeping"])
+M("C06-R2-dir-loop-buffered", "C06", [(S, "if !self.is_buffered() && self.query.limit > 0 && self.query.limit <= self.found\n", "if self.query.limit > 0 && self.query.limit <= self.found\n")], ["early-exit_visit_dir_buffered"])
+M("C06-R2-off-by-one", "C06", [(S, "if !self.is_buffered() && self.query.limit > 0 && self.query.limit <= self.found\n", "if !self.is_buffered() && self.query.limit > 0 && self.query.limit < self.found\n")], ["early-exit_visit_dir_condition"])
+M("C06-R3-found-before-filter", "C06", [(S, "        self.fms.clear();\n\n        if let Some(ref expr) = self.query.expr {", "        self.fms.clear();\n        self.found += 1;\n\n        if let Some(ref expr) = self.query.expr {"), (S, "            }\n        }\n\n        self.found += 1;\n", "            }\n        }\n\n")], ["found_gated"])
+M("C06-R4-limitless-swapped", "C06", [(S, "output_buffer: if limit == 0 {", "output_buffer: if limit != 0 {")], ["topn-selection"])
+M("C06-V-evict-mirrored", "C06", [(T, "if limit < self.count {", "if self.count > limit {")], kind="variant")
